@@ -116,7 +116,12 @@ fn main() {
                     let pi: Vec<F> = rec.iter().map(|x| x.1).collect();
                     let prover = MockProver::<F>::run(k, &circuit, vec![vec![], pi]).expect("synthesis (pass 2)");
                     let moduli: Vec<String> = <MultiEmulationParams as FieldEmulationParams<F, $K>>::moduli().iter().map(|m| m.to_string()).collect();
-                    let extra = json!({"family": "foreign", "op": spec.op, "params": spec.params,
+                    let offpi: Vec<String> = if spec.op == "pi" {
+                        use midnight_circuits::types::Instantiable;
+                        let kv: $K = foreign::k_of(&spec.ins[0]);
+                        <midnight_circuits::types::AssignedField<F, $K, MultiEmulationParams> as Instantiable<F>>::as_public_input(&kv).iter().map(dump::hex).collect()
+                    } else { vec![] };
+                    let extra = json!({"family": "foreign", "op": spec.op, "params": spec.params, "offcircuit_pi": offpi,
                         "emulated_modulus": <$K as ff::PrimeField>::MODULUS,
                         "log2_base": <MultiEmulationParams as FieldEmulationParams<F, $K>>::LOG2_BASE,
                         "nb_limbs": <MultiEmulationParams as FieldEmulationParams<F, $K>>::NB_LIMBS,
